@@ -532,6 +532,13 @@ def fixed_shapes():
         US(U8, US(U16, V(U8, 'u16'))),
         # sized fields that need padding in front of them, then a less aligned unsized tail
         US(U8, U32, FS('u8')), US(U8, U64, V(U8, 'u8')), US(U16, U8, U32, V(U16, 'u8')), US(U8, U16, U8, U64, FS('u16')),
+        # a sized prefix that does not end on the struct's alignment, then a tail less aligned than the struct
+        US(U32, U8, V(U8, 'u8')), US(U64, U16, FS('u8')), US(U32, U16, U8, FX(U8, 'u8')), US(U64, U8, V(U16, 'u8')),
+        UE('u8', 0, [], [U32, U8, V(U8, 'u8')], [U64, U16, FS('u8')]),
+        # three or more fields with a padded middle field and a low-aligned last field
+        E('u8', 0, [], [U8, U32, U16]), UE('u8', 0, [], [U8, U32, U16]), US(U8, U16, V(U32, 'u32')),
+        UE('u8', 0, [], [U8, U16, V(U32, 'u32')]), US(U8, U16, U32, FS('u8')),
+        FX(V(U16, 'u16'), 'le::U32'), FX(V(U8, 'le::U16'), 'le::U16'), V(U8, 'le::U32'), V(I('le::U32'), 'be::U16'),
         UE('u8', 0, [], [U8, U32, V(U8, 'u8')]), UE('u8', 0, [], [U8, U64, FS('u8')], [U16, U8, U32, FX(U8, 'u8')]),
         # unsized enums (tests/src/unsized_enum; D2, D13, D8)
         UE('u8', 0, [], [U8, U16], [U32, V(U8, 'u16')]),
